@@ -367,6 +367,9 @@ func TestC10Syscalls(t *testing.T) {
 						msg = "WriteSpec reported success but the directory does not hold the new Spec"
 					}
 				}
+				if msg == "" && (killed || res.Err != "") {
+					msg = tl.followUp(root, s)
+				}
 				if msg != "" {
 					t.Fatalf("C10 violated: %s\nfault: %s on call %s\ninitial state: %s, encoding %s\nSpec: %s", msg, mode, c.Call, initial, enc, clip(specImage(newSpec), 1500))
 				}
@@ -379,6 +382,29 @@ func TestC10Syscalls(t *testing.T) {
 			}
 		}
 	})
+}
+
+// followUp writes a different, short Spec under the same name into the directory as the failed or
+// interrupted run left it. Whatever that run left behind (temporary files included) must not show
+// in what is published now: the target must hold exactly the follow-up Spec.
+func (tl *c10Tools) followUp(root string, s *c10Setup) string {
+	fu := &specs.Spec{Version: "0.3.0", Kind: "v1.com/gpu", Devices: []specs.Device{{Name: "d0", ContainerEdits: specs.ContainerEdits{Env: []string{"FOLLOW=up"}}}}}
+	fuFile := filepath.Join(root, "follow-up.json")
+	_ = os.WriteFile(fuFile, []byte(specImage(fu)), 0o644)
+	out, err := pinnedCommand(tl.vhelper, "write", s.dir, s.target, fuFile).Output()
+	if err != nil || !strings.Contains(string(out), "{}") {
+		return fmt.Sprintf("a write that follows the failed / interrupted one fails: %v %s", err, out)
+	}
+	s2 := &c10Setup{dir: s.dir, target: s.target, newImage: specImage(fu), bystander: s.bystander}
+	msg, st := c10Observe(s2)
+	if msg == "" && st != "new" {
+		msg = "the directory does not hold the follow-up Spec"
+	}
+	if msg != "" {
+		data, _ := os.ReadFile(filepath.Join(s.dir, s.target))
+		return fmt.Sprintf("after the failed / interrupted write, the next write of the same name does not publish exactly its own content: %s (file now: %q)", msg, clip(string(data), 400))
+	}
+	return ""
 }
 
 func indexInWindow(w []straceEvent, ev straceEvent) int {
@@ -432,6 +458,9 @@ func TestC10WriteOffsets(t *testing.T) {
 				msg = fmt.Sprintf("the write was cut after %d of %d bytes, yet the target holds the new Spec", n, len(full))
 			}
 			c := c10Case{Spec: json.RawMessage(specImage(newSpec)), Encoding: enc, Initial: initial, Mode: fmt.Sprintf("write fails after %d of %d bytes", n, len(full)), Result: "directory holds " + st}
+			if msg == "" && res.Err != "" {
+				msg = tl.followUp(root, s)
+			}
 			if msg != "" {
 				t.Fatalf("C10 violated: %s\n%s\ninitial state: %s, encoding %s\nSpec: %s", msg, c.Mode, initial, enc, clip(specImage(newSpec), 1500))
 			}
@@ -546,7 +575,7 @@ func TestC10Readers(t *testing.T) {
 			t.Fatal(err)
 		}
 		var stop atomic.Bool
-		var reads, refreshes, writes atomic.Int64
+		var reads, refreshes, writes, writeErrors atomic.Int64
 		var failure atomic.Value
 		var wg sync.WaitGroup
 		for r := 0; r < 4; r++ {
@@ -591,16 +620,27 @@ func TestC10Readers(t *testing.T) {
 			}()
 		}
 		deadline := time.Now().Add(dur / 2)
-		for i := 0; time.Now().Before(deadline) && failure.Load() == nil; i++ {
-			s := a
-			if i%2 == 0 {
-				s = b
-			}
-			if err := w.WriteSpec(s, name); err != nil {
-				t.Fatalf("WriteSpec: %v", err)
-			}
-			writes.Add(1)
+		var ww sync.WaitGroup
+		for wi := 0; wi < 2; wi++ { // two writers publish the same name concurrently
+			ww.Add(1)
+			go func(wi int) {
+				defer ww.Done()
+				wc, _ := cdi.NewCache(cdi.WithSpecDirs(dir), cdi.WithAutoRefresh(false))
+				for i := wi; time.Now().Before(deadline) && failure.Load() == nil; i++ {
+					s := a
+					if i%2 == 0 {
+						s = b
+					}
+					if err := wc.WriteSpec(s, name); err != nil {
+						// a writer losing against another one is not what C10 is about: only what readers find is judged
+						writeErrors.Add(1)
+						continue
+					}
+					writes.Add(1)
+				}
+			}(wi)
 		}
+		ww.Wait()
 		stop.Store(true)
 		wg.Wait()
 		if f := failure.Load(); f != nil {
@@ -615,6 +655,7 @@ func TestC10Readers(t *testing.T) {
 		rec.Add("reader-observations", reads.Load())
 		rec.Add("cache-refresh-observations", refreshes.Load())
 		rec.Add("overwrites", writes.Load())
+		rec.Add("concurrent-write-errors", writeErrors.Load())
 		rec.Case(true, fmt.Sprintf("stress %s %d", enc, writes.Load()), func() any {
 			return map[string]any{"encoding": enc, "overwrites": writes.Load(), "readerObservations": reads.Load(), "refreshObservations": refreshes.Load()}
 		}, "stress", "enc:"+enc)
